@@ -906,11 +906,19 @@ impl ExprCompiled {
         step: Option<IrSpanned<ExprCompiled>>,
         ctx: &mut OptCtx,
     ) -> ExprCompiled {
+        // Fold only if every index expression which is present is a constant
+        // (`None` here means the expression is present, but is not a constant).
+        fn const_or_absent(e: &Option<IrSpanned<ExprCompiled>>) -> Option<Option<FrozenValue>> {
+            match e {
+                None => Some(None),
+                Some(e) => e.as_value().map(Some),
+            }
+        }
         if let (Some(array), Some(start), Some(stop), Some(step)) = (
             array.as_builtin_value(),
-            start.as_ref().map(|e| e.as_value()),
-            stop.as_ref().map(|e| e.as_value()),
-            step.as_ref().map(|e| e.as_value()),
+            const_or_absent(&start),
+            const_or_absent(&stop),
+            const_or_absent(&step),
         ) {
             if let Ok(v) = array.to_value().slice(
                 start.map(|v| v.to_value()),
